@@ -123,15 +123,17 @@ def c12(tier):
             ck.violation("the parser panicked on %s: %s" % (what, po["panic"][:200]), cid)
             return
         if po.get("hang"):
-            ck.violation("the parser had not returned after 20 s on %s" % what, cid)
+            ck.violation("the parser had not returned after 30 s on %s" % what, cid)
             return
+        if po.get("skipped"):
+            return      # not waited for: four parses of this process had not returned before
         for b in po.get("bad") or []:
             ck.violation("parse error position/rendering: " + b, cid)
         if "rest_status" in po and po["rest_status"]:
             if not po["rest_same"] or not po["grpc_same"]:
                 ck.violation("the syntax-check endpoints do not report the parser's errors (REST %s same=%s, gRPC %s same=%s)" % (
                     po["rest_status"], po["rest_same"], po["grpc_code"], po["grpc_same"]), cid)
-        if po["ms"] > 10000:
+        if po["ms"] > 15000:
             slow += 1
 
     for i, l in enumerate(lex):
@@ -163,7 +165,7 @@ def c12(tier):
             parse_checks(x["parse"], "a byte string", {"bytes": raws[x["raw"]][:200]})
             ck.nontrivial.add(("r", x["raw"]))
     if slow:
-        raise Inconclusive("%d inputs took more than 10 s to parse (performance is not decided here)" % slow)
+        raise Inconclusive("%d inputs took more than 15 s to parse (performance is not decided here)" % slow)
     ck.sample({"input_chars": lex[len(lex) // 2]["in"], "model_items": lex[len(lex) // 2]["items"]})
     ck.sample({"near_miss": texts[5][:300]})
     ck.extra["lexer_inputs"] = len(lex)
